@@ -20,6 +20,7 @@ pub enum KindId {
     IterUnk,
     IterNonFused,
     IterRef,
+    IterRefUnk,
     ClonedSlice,
     CopiedSlice,
     ClonedVecRef,
@@ -35,7 +36,7 @@ pub enum KindId {
 
 pub const GRID: [usize; 9] = [0, 1, 7, usize::MAX / 2 - 1, usize::MAX / 2, usize::MAX / 2 + 1, usize::MAX - 2, usize::MAX - 1, usize::MAX];
 
-pub const ALL_KINDS: [KindId; 23] = [
+pub const ALL_KINDS: [KindId; 24] = [
     KindId::Slice,
     KindId::VecRef,
     KindId::ArrayRef,
@@ -49,6 +50,7 @@ pub const ALL_KINDS: [KindId; 23] = [
     KindId::IterUnk,
     KindId::IterNonFused,
     KindId::IterRef,
+    KindId::IterRefUnk,
     KindId::ClonedSlice,
     KindId::CopiedSlice,
     KindId::ClonedVecRef,
@@ -78,6 +80,7 @@ impl KindId {
             IterUnk => "iter_unk",
             IterNonFused => "iter_nonfused",
             IterRef => "iter_ref",
+            IterRefUnk => "iter_ref_unk",
             ClonedSlice => "cloned_slice",
             CopiedSlice => "copied_slice",
             ClonedVecRef => "cloned_vecref",
@@ -91,13 +94,13 @@ impl KindId {
         };
         KindInfo {
             name,
-            known: !matches!(self, IterInexact | IterUnk | IterNonFused | CopiedIter),
+            known: !matches!(self, IterInexact | IterUnk | IterNonFused | CopiedIter | IterRefUnk),
             consuming: matches!(self, OVec | OArray | IterExact | IterInexact | IterUnk | IterNonFused | OVec24 | OArray24 | Iter24),
-            by_ref: matches!(self, Slice | VecRef | ArrayRef | IterRef),
+            by_ref: matches!(self, Slice | VecRef | ArrayRef | IterRef | IterRefUnk),
             clones: matches!(self, ClonedSlice | ClonedVecRef | ClonedArrayRef | ClonedIter),
             adaptor: matches!(self, ClonedSlice | CopiedSlice | ClonedVecRef | ClonedArrayRef | ClonedIter | CopiedIter),
             nonfused: matches!(self, IterNonFused),
-            wrapper: matches!(self, IterExact | IterInexact | IterUnk | IterNonFused | IterRef | ClonedIter | CopiedIter | Iter24),
+            wrapper: matches!(self, IterExact | IterInexact | IterUnk | IterNonFused | IterRef | IterRefUnk | ClonedIter | CopiedIter | Iter24),
             keymap: match self {
                 Range0 => KeyMap::Range(0),
                 Range5 | RangeInto => KeyMap::Range(5),
@@ -116,7 +119,8 @@ impl KindId {
             ClonedSlice | CopiedSlice => Some(Slice),
             ClonedVecRef => Some(VecRef),
             ClonedArrayRef => Some(ArrayRef),
-            ClonedIter | CopiedIter => Some(IterRef),
+            ClonedIter => Some(IterRef),
+            CopiedIter => Some(IterRefUnk),
             _ => None,
         }
     }
@@ -369,10 +373,15 @@ pub fn exec_one(kind: KindId, mode: Mode, env: &mut Env, hist: &[SOp], term: Ter
             subj(|| drop(src));
             post_source(env);
         }
-        CopiedSlice | CopiedIter => {
+        CopiedSlice | CopiedIter | IterRefUnk => {
             let src: std::vec::Vec<usize> = subj(|| (0..len).map(key_of).collect());
             match kind {
                 CopiedSlice => run_ref(env, src.as_slice().into_con_iter().copied(), hist, term),
+                IterRefUnk => {
+                    env.src_base = src.as_ptr() as usize;
+                    env.stride = std::mem::size_of::<usize>();
+                    run_ref(env, ProbeRef::new(src.as_slice(), Hint::Unbounded).into_con_iter(), hist, term)
+                }
                 _ => run_ref(env, ProbeRef::new(src.as_slice(), Hint::Unbounded).into_con_iter().copied(), hist, term),
             }
             if env.ok() && src.iter().enumerate().any(|(i, x)| *x != key_of(i)) {
